@@ -190,10 +190,11 @@ def run_shard(spec, workdir):
         check("same-process-roundtrip", x2, want)
         res["counters"]["same_process_roundtrip"] += 1
         # (3) combined with a locally built array of the same shape, both operand positions
-        spec_local = x.spec
+        # the receiver's own Spec: equal by value to the shipped array's, but a distinct object
+        spec_local = cubed.Spec(work_dir=x.spec.work_dir, allowed_mem=x.spec.allowed_mem, reserved_mem=x.spec.reserved_mem)
         ldata = (np.arange(want.size).reshape(want.shape) * 3 + 100).astype(want.dtype)
         try:
-            y = xp.asarray(ldata, chunks=tuple(max(1, s // 2) for s in want.shape) or None, spec=spec_local) + 1
+            y = xp.asarray(ldata, chunks=(tuple(max(1, s // 2) for s in want.shape) if want.ndim else "auto"), spec=spec_local) + 1
             lnames = list(y._plan.dag.nodes())
             check("x - local", xp.subtract(x, y), want - (ldata + 1), lnames)
             res["counters"]["combined_left"] += 1
@@ -205,8 +206,10 @@ def run_shard(spec, workdir):
             res["counters"]["shared_ancestry"] += 1
             res["nontrivial"].append(gen.rhash([recipe, k]))
         except Exception as e:
-            # building the combination was refused explicitly: allowed (recorded)
+            # the specs are equal and the shapes/dtypes compatible: a refusal to combine is not 'behaving like any other array'
             _rc.bump(res["hist"]["exceptions"], f"build:{type(e).__name__}")
+            V("combination-fails", f"building a combination with a local array raised {type(e).__name__}: {str(e)[:700]}",
+              {"how": "build", "exc": type(e).__name__, "name_collision": collides()}, {"how": "build"})
         shutil.rmtree(wd, ignore_errors=True)
         if j < 1 and spec.get("shard", 0) == 0:
             res["samples"].append({"recipe": recipe, "receiver_counter": k, "child_max_counter": child_max})
